@@ -128,6 +128,21 @@ def gen_cases(tier, seed):
                 'get_read_caps': rng.choice(caps_menu),
                 'plan': {'gate': {'match': 's3:GetObject', 'phase': rng.choice(['before', 'after']), 'policy': rng.choice(['seeded', 'reverse'])}}}
         cases.append(spec)
+    # legacy front-end: one preemption at every statement of the ranged downloader (range threads, IO thread, shutdown queue)
+    from .. import yieldinj
+
+    llines = [l for l in yieldinj.all_lines(['__init__.py'])
+              if l[2].startswith(('MultipartDownloader.', 'ShutdownQueue.', 'S3Transfer._ranged_download', 'S3Transfer._download_file', 'S3Transfer._get_object',
+                                  'S3Transfer.download_file', 'StreamReaderProgress.read')) and not l[2].endswith('__init__')]
+    for line in llines:
+        for nth in ((0, 1) if quick else (0, 1, 2, 3)):
+            T, C = rng.choice([(8, 8), (8, 4)])
+            cases.append({'front_end': 'legacy', 'seed': rng.randrange(1 << 30),
+                          'config': dict(multipart_threshold=T, multipart_chunksize=C, max_concurrency=rng.choice([2, 3]), num_download_attempts=2,
+                                         max_io_queue=rng.choice([1, 2, 100])),
+                          'transfers': [{'kind': 'download', 'dst': 'path', 'size': rng.choice([2 * C + 1, 4 * C, 5 * C + 3])}],
+                          'get_read_caps': rng.choice(caps_menu), 'plan': {},
+                          'yield': {'p': 0.0, 'window': {'file': '__init__.py', 'lineno': line[1], 'nth': nth, 'name': f'__init__.py:{line[1]}:{line[2]}', 'wait': 0.2}}})
     # several downloads one after the other on ONE manager (each finished before the next is submitted), some with stream retries
     for i in range(30 if quick else 300):
         T, C = rng.choice([(8, 8), (16, 8), (8, 4)])
